@@ -22,16 +22,16 @@ package loop
 
 //@ func classifyIV
 //@   noframe
-//@   requires [C12.gate] [C03.iv] phi != nil && forall j in 0..len(predsOf(phi)) :: phi.Edges[j] != nil
+//@   requires [C12.gate] [C03.iv] [C04.norm] phi != nil && forall j in 0..len(predsOf(phi)) :: phi.Edges[j] != nil
 //@   ghost stepInv bool
 //@   init stepInv = false
 //@   call IsLoopInvariant update stepInv = result
-//@   mapupdate Inductions assert [C12.gate] [C03.iv] key == phi && binOp != nil && integerT(typeOfReg(binOp))
-//@   mapupdate Inductions assert [C12.gate] [C03.iv] (binOp.X == iface(phi, "*ssa.Phi") || (binOp.Y == iface(phi, "*ssa.Phi") && binOp.Op != token.SUB)) && (binOp.Op == token.ADD || binOp.Op == token.SUB || binOp.Op == token.MUL)
-//@   mapupdate Inductions assert [C12.gate] [C03.iv] stepInv && startVal != nil
-//@   mapupdate Inductions assert [C12.gate] [C03.iv] forall j in 0..len(predsOf(phi)) :: phi.Edges[j] == iface(binOp, "*ssa.BinOp") || phi.Edges[j] == startVal
-//@   loop 2 invariant [C12.gate] [C03.iv] 0 <= #i && #i <= len(predsOf(phi)) && forall j in 0..#i :: phi.Edges[j] == iface(binOp, "*ssa.BinOp") || phi.Edges[j] == startVal
-//@   loop 2 invariant [C12.gate] [C03.iv] startVal == nil ==> forall j in 0..#i :: phi.Edges[j] == iface(binOp, "*ssa.BinOp")
+//@   mapupdate Inductions assert [C12.gate] [C03.iv] [C04.norm] key == phi && binOp != nil && integerT(typeOfReg(binOp))
+//@   mapupdate Inductions assert [C12.gate] [C03.iv] [C04.norm] (binOp.X == iface(phi, "*ssa.Phi") || (binOp.Y == iface(phi, "*ssa.Phi") && binOp.Op != token.SUB)) && (binOp.Op == token.ADD || binOp.Op == token.SUB || binOp.Op == token.MUL)
+//@   mapupdate Inductions assert [C12.gate] [C03.iv] [C04.norm] stepInv && startVal != nil
+//@   mapupdate Inductions assert [C12.gate] [C03.iv] [C04.norm] forall j in 0..len(predsOf(phi)) :: phi.Edges[j] == iface(binOp, "*ssa.BinOp") || phi.Edges[j] == startVal
+//@   loop 2 invariant [C12.gate] [C03.iv] [C04.norm] 0 <= #i && #i <= len(predsOf(phi)) && forall j in 0..#i :: phi.Edges[j] == iface(binOp, "*ssa.BinOp") || phi.Edges[j] == startVal
+//@   loop 2 invariant [C12.gate] [C03.iv] [C04.norm] startVal == nil ==> forall j in 0..#i :: phi.Edges[j] == iface(binOp, "*ssa.BinOp")
 
 // ---- C01: loop detection does not leak map iteration order into its result
 //@ func DetectLoops
